@@ -6,6 +6,7 @@ import (
 	"errors"
 	"fmt"
 	"math/rand"
+	"net"
 	"strings"
 	"time"
 
@@ -225,6 +226,10 @@ func run(ci any, r *mon.Rec) {
 		return
 	}
 	x := &ctxInfo{c: c, r: r, req: req, reply: reply, client: c.Client}
+	if clientx.TooManyHangs() {
+		r.NoteAdd("cases_skipped_after_3_hangs", 1)
+		return
+	}
 	L := len(reply)
 	E := req.ExpectedResponseLength()
 	opt := clientx.Options{ReadTimeout: rtOf(c.Client), Flusher: rng.Intn(2) == 0}
@@ -294,6 +299,35 @@ func run(ci any, r *mon.Rec) {
 				r.Violate(c, "wrong-error-class", mon.Attrs{"client": clientx.KindName(c.Client), "fc": int(c.FC), "fault": "not-connected"}, fmt.Sprintf("%T %v", uerr, uerr))
 			}
 		}
+		// network clients whose Connect failed (dial function returning an error with a nil or a typed-nil connection)
+		if c.Client != clientx.Serial {
+			for _, typedNil := range []bool{false, true} {
+				cfg := modbus.ClientConfig{DialContextFunc: func(ctx context.Context, address string) (net.Conn, error) {
+					if typedNil {
+						var tc *net.TCPConn
+						return tc, errors.New("verif: dial refused")
+					}
+					return nil, errors.New("verif: dial refused")
+				}}
+				var cl *modbus.Client
+				if c.Client == clientx.TCP {
+					cl = modbus.NewTCPClientWithConfig(cfg)
+				} else {
+					cl = modbus.NewRTUClientWithConfig(cfg)
+				}
+				var cerr, derr error
+				var dresp packet.Response
+				pn, txt := mon.Catch(func() {
+					cerr = cl.Connect(context.Background(), "verif:1")
+					dresp, derr = cl.Do(context.Background(), req)
+					_ = cl.Close()
+				})
+				r.Eval(1)
+				if pn || cerr == nil || derr == nil || !libx.IsNilValue(dresp) {
+					r.Violate(c, "unconnected-not-refused", mon.Attrs{"client": clientx.KindName(c.Client), "after": "failed-connect", "typed_nil": typedNil}, fmt.Sprintf("Connect err=%v; Do err=%v panic=%q", cerr, derr, txt))
+				}
+			}
+		}
 		// serial: flush failing on an error path must still yield a *ClientError
 		if c.Client == clientx.Serial {
 			s := script(reply, min(2, L-1), "inject", rng)
@@ -311,6 +345,9 @@ func run(ci any, r *mon.Rec) {
 			for _, f2 := range []string{"ok", "stall", "inject", "cancel", "eof"} {
 				if c.Client == clientx.Serial && !r.Thorough() && rng.Intn(3) != 0 {
 					continue
+				}
+				if clientx.TooManyHangs() {
+					return
 				}
 				sess := clientx.NewSession(c.Client, opt)
 				p1 := 0
